@@ -1,6 +1,69 @@
-(* Props/Properties_C05.v - statements only; see DESIGN.md section 8 C05. *)
-From Adm Require Import Heap.Exec gen.PlansGen Heap.PlanChecks.
+(* Props/Properties_C05.v - C05: IDs are unique per document and assignment is monotone and stable.
+   Statements only; proofs in Heap/Ids.v.
+
+   Full statement: in every document reached through the API no two elements of a kind carry the same significant ID,
+   lookup(id) returns the element carrying it, adding never changes the ID of an element already present, keeps a free
+   pre-set ID and otherwise assigns the next free value at or above it, and setting an ID in use throws.
+   Proved here: the algorithmic core for every input - nextCounter returns the least free value at or above the
+   preferred one; the ID computed for a joining element is carried by no member; a free pre-set value is kept;
+   Document::add leaves every element that already belongs to a document untouched; lookup finds a carried ID;
+   set(Id) of an ID in use throws and changes nothing.  Not proved: that uniqueness is an invariant of all histories
+   (the hypothesis [distinct_above] of the freshness theorem is that invariant restricted to the values the assigner
+   looks at; theorem names carry _partial for this reason); it is explored by the differential run with the
+   uniqueness and lookup oracles on libadm after every call. *)
+From Adm Require Import Heap.Exec gen.PlansGen Heap.PlanChecks Heap.Frame Heap.Ids.
+Local Open Scope N_scope.
 
 Theorem C05_plans_recognised : plans_problems = [] /\ add_plan_complete gen_plans = true /\ plans_typed gen_plans = true.
 Proof. exact (conj plans_recognised (conj gen_add_plan_complete gen_plans_typed)). Qed.
 Print Assumptions C05_plans_recognised.
+
+(* nextCounter: at or above the preferred value, not in use, and every value in between is in use *)
+Theorem C05_next_counter_is_least_free : forall cs pref, NoDup (filter (fun c => pref <=? c) cs) ->
+  pref <= next_counter cs pref /\ ~ In (next_counter cs pref) cs /\
+  forall v, pref <= v -> v < next_counter cs pref -> In v cs.
+Proof. exact next_counter_spec. Qed.
+Print Assumptions C05_next_counter_is_least_free.
+
+Theorem C05_free_value_is_kept : forall cs pref, NoDup (filter (fun c => pref <=? c) cs) -> ~ In pref cs ->
+  next_counter cs pref = pref.
+Proof. exact next_counter_keeps_free. Qed.
+Print Assumptions C05_free_value_is_kept.
+
+(* the ID assigned to an element that joins a document is carried by no member of its kind *)
+Theorem C05_assigned_id_is_fresh_partial : forall s x e ni, new_id_for s x e = Some ni -> distinct_above s x e ->
+  forall j, In j (ids_of s (members x (ekind e))) -> j <> ni.
+Proof. exact new_id_fresh. Qed.
+Print Assumptions C05_assigned_id_is_fresh_partial.
+
+Theorem C05_preset_value_is_kept_partial : forall s x e ni, new_id_for s x e = Some ni -> distinct_above s x e ->
+  is_undefined (ekind e) (eid e) = false ->
+  ~ In (rel_field e (eid e)) (map (rel_field e) (filter (rel_pred s e) (ids_of s (members x (ekind e))))) ->
+  rel_field e ni = rel_field e (eid e).
+Proof. exact new_id_keeps_free_value. Qed.
+Print Assumptions C05_preset_value_is_kept_partial.
+
+(* adding an element (and everything it references) changes no element that already belongs to a document *)
+Theorem C05_add_changes_no_present_element : forall P d h s s' b, doc_add_top P d h s = (s', inl b) ->
+  forall x e, get_elem s x = Some e -> eparent e <> None -> get_elem s' x = Some e.
+Proof. exact doc_add_top_keeps. Qed.
+Print Assumptions C05_add_changes_no_present_element.
+
+(* lookup: None exactly when no listed element carries the ID; Some h only for a listed element carrying it *)
+Theorem C05_lookup_exact : forall s l i,
+  (lookup_in s l i = None <-> forall h e, In h l -> get_elem s h = Some e -> id_eqb (eid e) i = false) /\
+  (forall h, lookup_in s l i = Some h -> In h l /\ exists e, get_elem s h = Some e /\ id_eqb (eid e) i = true).
+Proof. exact (fun s l i => conj (lookup_in_none s l i) (fun h => lookup_in_some s l i h)). Qed.
+Print Assumptions C05_lookup_exact.
+
+Theorem C05_set_id_in_use_throws : forall h i s e d x h' e', get_elem s h = Some e -> eparent e = Some d ->
+  get_doc s d = Some x -> is_undefined (ekind e) i = false -> In h' (members x (ekind e)) ->
+  get_elem s h' = Some e' -> id_eqb (eid e') i = true -> set_id h i s = (s, inr IdInUse).
+Proof. exact set_id_in_use. Qed.
+Print Assumptions C05_set_id_in_use_throws.
+
+(* the statements are about something: values and a history *)
+Example C05_next_counter_values :
+  next_counter [4097; 4098; 4100; 7] 4097 = 4099 /\ next_counter [4097; 4098; 4100] 4100 = 4101 /\
+  next_counter [4097; 4098] 4200 = 4200 /\ next_counter [] 4097 = 4097.
+Proof. vm_compute. auto. Qed.
